@@ -13,7 +13,7 @@ use wirefilter::{ExecutionContext, Filter, FilterValue, Scheme};
 
 pub const ID: &str = "C18";
 
-const FILTERS: [&str; 9] = [
+const FILTERS: [&str; 12] = [
     "s matches \"^a.*b$\"",
     "s wildcard \"a*b\"",
     "s contains \"ab\"",
@@ -23,7 +23,13 @@ const FILTERS: [&str; 9] = [
     "len(up(idb(s))) == 2 and not s contains \"abababababababababab\"",
     "any(xs[*] matches \"b$\") or s strict wildcard \"B*\"",
     "any(xs[*] in $b) xor ip in {::1 10.0.0.0/8}",
+    // combinators whose deciding operand differs from context to context (9, 10, 11)
+    "i == 1 and s contains \"ab\"",
+    "i == 2 or s contains \"Ba\" or ip == ::1",
+    "i == 1 and not ip == 1.2.3.4 and s contains \"ab\" and any(xs[*] == \"ab\")",
 ];
+/// filters of the list above whose operands decide differently on different contexts
+const COMBINATORS: [usize; 3] = [9, 10, 11];
 const VALUES: [&str; 2] = ["cat2(xs[*], nie(s))", "pick(s, i in $a)"];
 
 struct World {
@@ -168,6 +174,18 @@ fn scenarios(tier: Tier) -> Vec<Scenario> {
         for l in 0..nf {
             if k < l && (tier == Tier::Thorough || (k + l) % 3 == 0) {
                 v.push(Scenario { name: format!("different filters on one shared context [{k},{l}]"), warmup: vec![], threads: vec![vec![Act::Exec(k, 0), Act::Exec(l, 1)], vec![Act::Exec(l, 0), Act::Exec(k, 1)]] });
+            }
+        }
+    }
+    // every (warm-up context, context of thread 0, context of thread 1) for the combinator filters:
+    // a hint left behind by one execution must not change what a concurrent one returns
+    let nc = contexts().0.len();
+    for &k in &COMBINATORS {
+        for w in 0..nc {
+            for a in 0..nc {
+                for b in a..nc {
+                    v.push(Scenario { name: format!("combinator filter, warm-up on context {w}, threads on {a} and {b} [{k}]"), warmup: vec![Act::Exec(k, w)], threads: vec![vec![Act::Exec(k, a)], vec![Act::Exec(k, b)]] });
+                }
             }
         }
     }
@@ -351,7 +369,7 @@ pub fn run(tier: Tier, seed: u64) -> i32 {
     run.count("schedules", total.schedules);
     run.finish(
         total.schedules,
-        "for every scenario (2-3 threads x 1-2 operations over 9 filters / 2 value expressions / 3 contexts, with sequential warm-ups): every schedule with at most 2 (quick) / 3 (thorough) preemptions at hook granularity, executed to completion on real threads under the cooperative scheduler; every call's result equals the sequential baseline; states/transitions = scheduling points executed, traces = schedules; canary must show > 1 outcome",
+        "for every scenario (2-3 threads x 1-2 operations over 12 filters / 2 value expressions / 4 contexts, with sequential warm-ups): every schedule with at most 2 (quick) / 3 (thorough) preemptions at hook granularity, executed to completion on real threads under the cooperative scheduler; every call's result equals the sequential baseline; states/transitions = scheduling points executed, traces = schedules; canary must show > 1 outcome",
         !total.capped,
         &[("schedules", 500), ("canary_distinct_outcomes", 2), ("first_use_schedules", 2)],
     )
